@@ -50,9 +50,10 @@ type Case struct {
 	List  []MeshDesc `json:"list,omitempty"`
 	Alpha int        `json:"alpha,omitempty"` // size of the line alphabet (8 or 10)
 	Seq   []int      `json:"seq,omitempty"`
-	FS    bool       `json:"fs,omitempty"`   // through obj.Load on real files
-	Bits  uint32     `json:"bits,omitempty"` // kind "value": float32 bit pattern
-	Slot  int        `json:"slot,omitempty"` // kind "value": component slot (slotNames)
+	FS    bool       `json:"fs,omitempty"`    // through obj.Load on real files
+	Bits  uint32     `json:"bits,omitempty"`  // kind "value": float32 bit pattern
+	Slot  int        `json:"slot,omitempty"`  // kind "value": component slot (slotNames)
+	Names []string   `json:"names,omitempty"` // kind "names": two mesh names, two material names
 }
 
 type checker struct {
@@ -1174,6 +1175,12 @@ func run(c *core.Ctx) {
 	if !k.runValues(1 << 28) {
 		return
 	}
+	if !k.runNames(1 << 29) {
+		return
+	}
+	if !k.runFiles(1 << 30) {
+		return
+	}
 	k.runTexts(1 << 20)
 }
 
@@ -1192,6 +1199,12 @@ func replay(c *core.Ctx) {
 		k.textCase(cs.Alpha, cs.Seq, cs.FS)
 	case "value":
 		k.valueCase(cs.Bits, cs.Slot)
+	case "names":
+		if len(cs.Names) == 4 {
+			k.nameCase([2]string{cs.Names[0], cs.Names[1]}, [2]string{cs.Names[2], cs.Names[3]})
+		}
+	case "files":
+		k.filesCase(cs.Seq)
 	default:
 		c.HarnessError("unknown case kind %q", cs.Kind)
 	}
